@@ -112,6 +112,24 @@ CHECKS["C07"] = dict(
     design_ref="DESIGN.md section 4 C07",
     note=TB)
 
+CHECKS["C12"] = dict(
+    category="other",
+    technique="finite decision table of Referent.value by abstract interpretation; idiom classification of the tie-break; dataflow/shape rules for macro activations",
+    text="Narrow claim: decides the preference container > value > annotation inside a Referent (complete table), that among equally long matches the innermost scope wins, "
+         "that bindings are loaded in front of declarations, and that both engines evaluate a macro body under the current activation plus exactly the iteration variable(s). "
+         "The search over package prefixes and competing dotted names is a loop over run-time name sets and is NOT decided.",
+    design_ref="DESIGN.md section 4 C12",
+    note=TB + " Only the listed clauses are claimed.")
+
+CHECKS["C14"] = dict(
+    category="other",
+    technique="sibling cross-check of function_eval/method_eval; classification of every construction of the function lookup chain; provenance rule on generated callee text; exception-effect analysis with a host-function model",
+    text="Decides necessary conditions: the two call forms are handled identically (handlers, messages, lookup, error-argument checks, receiver as first argument); every "
+         "construction of an activation's function chain looks supplied functions up before base_functions, which is never written; unbound names become error values; "
+         "ValueError/TypeError of host functions are converted; the transpiler must not re-spell the callable. 'Once per call site' and argument values are not decided.",
+    design_ref="DESIGN.md section 4 C14",
+    note=TB)
+
 PENDING = {}  # property id -> reason, for properties not claimed
 
 def main():
